@@ -73,8 +73,11 @@ class SumKroneckerLinearOperator(SumLinearOperator):
         self: Float[LinearOperator, "... N N"]
     ) -> Union[Float[torch.Tensor, "... N N"], Float[LinearOperator, "... N N"]]:
         inner_mat = self._sum_formulation
+        # (the root of the second Kronecker product must be the inverse transpose of the inverse roots that the sum
+        # formulation is built from: a root_decomposition() of the factors may come from another method, depending on
+        # the settings and on what they have cached. With R R^T = K^{-1}: K R = R^{-T})
         lt2_root = KroneckerProductLinearOperator(
-            *[lt.root_decomposition().root for lt in self.linear_ops[1].linear_ops]
+            *[lt.matmul(lt.root_inv_decomposition().root) for lt in self.linear_ops[1].linear_ops]
         )
         inner_mat_root = inner_mat.root_decomposition().root
         root = lt2_root.matmul(inner_mat_root)
